@@ -57,6 +57,9 @@ type Scheduler struct {
 	pause     time.Duration
 	lastError error
 	handlers  map[dag.HandlerType]*Node
+	// outcome is the status the lifecycle handlers were chosen for; once it
+	// is set it is what Status reports.
+	outcome *Status
 }
 
 func New(cfg *Config) *Scheduler {
@@ -260,8 +263,15 @@ func (sc *Scheduler) Schedule(ctx context.Context, g *ExecutionGraph, done chan 
 	}
 	wg.Wait()
 
+	// The outcome is decided once, when all steps have ended: a stop request
+	// that arrives while the handlers run must not relabel the run.
+	outcome := sc.Status(g)
+	sc.mu.Lock()
+	sc.outcome = &outcome
+	sc.mu.Unlock()
+
 	var handlers []dag.HandlerType
-	switch sc.Status(g) {
+	switch outcome {
 	case StatusSuccess:
 		handlers = append(handlers, dag.HandlerOnSuccess)
 	case StatusError:
@@ -354,6 +364,12 @@ func (sc *Scheduler) Cancel(g *ExecutionGraph) {
 
 // Status returns the status of the scheduler.
 func (sc *Scheduler) Status(g *ExecutionGraph) Status {
+	sc.mu.RLock()
+	decided := sc.outcome
+	sc.mu.RUnlock()
+	if decided != nil {
+		return *decided
+	}
 	if sc.isCanceled() && !sc.isSucceed(g) {
 		return StatusCancel
 	}
